@@ -70,6 +70,7 @@ func writeEvidence(p PropCfg, tier string, seed int64, a *agg, wall, buildS floa
 		"distinct_cells":            len(a.cells),
 		"cells_sample":              cellSample,
 		"determinism_pairs_checked": detPairs,
+		"determinism_same_decisions_different_site_order": SiteOrderVariations,
 		"real_vs_stub":              p.RealVsStub,
 		"known_finding_runs":        known,
 		"build_s":                   buildS,
